@@ -374,4 +374,56 @@ theorem tdHead_singular_seen (D : DOpts) (X : SchemaX) (d : MsgX) (limit : Int) 
         · rw [ho] at h; cases h; rw [hso] at h2; cases h2
       · simp
 
+theorem tdFields_cons (C : TCodec) (D : DOpts) (X : SchemaX) (mi : Nat) (limit : Int) (name : TName) (sep : Bool) (v : TV)
+    (tl : TFields) (sn so : Ints) (m : Msg) :
+    tdFields C D X mi limit (.cons name sep v tl) sn so m =
+      match tdHead D X (X.msg mi) limit name sep v sn so with
+      | .error e => .error e
+      | .skip sn' => tdFields C D X mi limit tl sn' so m
+      | .value fx sn' so' =>
+        match tdFieldVal C D X mi fx limit m v with
+        | .error e => .error e
+        | .ok m' => tdFields C D X mi limit tl sn' so' m' := by
+  rw [tdFields]
+  rfl
+
+/-- a head that hands over the value belongs to a resolved field -/
+theorem tdHead_value_found (D : DOpts) (X : SchemaX) (d : MsgX) (limit : Int) (name : TName) (sep : Bool) (v : TV)
+    (sn so sn' so' : Ints) (fx : FieldX) (h : tdHead D X d limit name sep v sn so = .value fx sn' so') :
+    resolveText X d name = .found fx := by
+  cases hr : resolveText X d name with
+  | badNum => unfold tdHead at h; simp [hr] at h
+  | badExt => unfold tdHead at h; simp [hr] at h
+  | byNumber => unfold tdHead at h; simp [hr] at h
+  | unknown s0 => exact absurd h ((tdHead_unknown_ok D X d limit name sep v sn so s0 hr).1 fx sn' so')
+  | found gx =>
+    rcases tdHead_found_cases D X d limit name sep v sn so gx hr with ⟨e, he⟩ | ⟨_, hv⟩ | ⟨_, hv⟩
+    · rw [he] at h; cases h
+    · rw [hv] at h; cases h; rfl
+    · rw [hv] at h; cases h; rfl
+
+/-- a skipping head belongs to an unknown or reserved name; after the repair the skipped value was checked -/
+theorem tdHead_skip_cases (D : DOpts) (X : SchemaX) (d : MsgX) (limit : Int) (name : TName) (sep : Bool) (v : TV)
+    (sn so sn' : Ints) (h : tdHead D X d limit name sep v sn so = .skip sn') :
+    ∃ s0, resolveText X d name = .unknown s0 ∧ sn' = sn ∧ (D.skipLimited = true → skipTFix limit v = .ok ()) := by
+  cases hr : resolveText X d name with
+  | badNum => unfold tdHead at h; simp [hr] at h
+  | badExt => unfold tdHead at h; simp [hr] at h
+  | byNumber => unfold tdHead at h; simp [hr] at h
+  | found gx =>
+    rcases tdHead_found_cases D X d limit name sep v sn so gx hr with ⟨e, he⟩ | ⟨_, hv⟩ | ⟨_, hv⟩
+    · rw [he] at h; cases h
+    · rw [hv] at h; cases h
+    · rw [hv] at h; cases h
+  | unknown s0 =>
+    refine ⟨s0, rfl, (tdHead_unknown_ok D X d limit name sep v sn so s0 hr).2 sn' h, ?_⟩
+    intro hl
+    unfold tdHead at h
+    rw [hr] at h
+    simp only [hl, if_true] at h
+    split at h
+    · cases hs : skipTFix limit v with
+      | error e => rw [hs] at h; cases h
+      | ok u => rfl
+    · cases h
 end JT
